@@ -116,6 +116,7 @@ def run(chk, repo: Repo):
     _r2_solvers(chk, repo)
     _r3_experimental(chk, repo, base, recorded)
     _r3_single_loop_definition(chk, repo, base, samplers)
+    _r3_kwargs_forwarded(chk, repo, samplers)
     _r5_pure_accessors(chk, repo, base)
     _r5(chk, repo, base, samplers)
     _r7(chk, repo, base)
@@ -310,6 +311,26 @@ def _r3_single_loop_definition(chk, repo, base, samplers):
             chk.add("C14-R3", f"{ci.qual}.{m}/defined-by-base", ok, where, f"{m}() is the base class's chain loop",
                     f"{ci.name} replaces {m}() of the base sampler ({owner[0].qual if owner else 'missing'}): the chain-loop contract (per-iteration transition, record, callback, "
                     f"stream consumption independent of how a run is split) is no longer the one decided for the base class", owner[1] if owner else None)
+
+
+def _r3_kwargs_forwarded(chk, repo, samplers):
+    """The callback (and the other base-class options) reach the base constructor: a sampler constructor that collects `**kwargs` hands them to
+    `super().__init__(..., **kwargs)`.  Otherwise a callback given to that sampler is accepted and never invoked."""
+    n = 0
+    for ci in samplers:
+        for c in ci.mro():
+            init = c.methods.get("__init__")
+            if init is None or init.args.kwarg is None or c.qual.endswith(":Sampler"):
+                continue
+            kw = init.args.kwarg.arg
+            sup = [x for x in ast.walk(init) if isinstance(x, ast.Call) and isinstance(x.func, ast.Attribute) and x.func.attr == "__init__"
+                   and isinstance(x.func.value, ast.Call) and call_name(x.func.value) == "super"]
+            ok = bool(sup) and all(any(k.arg is None and path_of(k.value) == kw for k in x.keywords) for x in sup)
+            n += 1
+            chk.add("C14-R3", f"{c.qual}.__init__/kwargs-forwarded", ok, site(repo, init), f"super().__init__(..., **{kw})",
+                    f"{c.name}.__init__ collects **{kw} but does not pass them to the base constructor: `callback=` (and `initial_point=` ...) given to this sampler are "
+                    f"silently dropped, the callback is never invoked for the states it produces", init)
+    return n
 
 
 def _r5_pure_accessors(chk, repo, base):
